@@ -45,6 +45,37 @@ def key_material(opts):
     return hashlib.sha256(parts).digest()
 
 
+def material_from_texts(public_text, private_text):
+    """Key material for in-process use (same derivation as key_material)."""
+    return hashlib.sha256(public_text.encode() + b"|" +
+                          private_text.encode() + b"|").digest()
+
+
+def encrypt_text(key, plaintext):
+    data = plaintext.encode("utf-8")
+    mac = hashlib.sha256(key + data).digest()[:4]
+    body = bytes(a ^ b for a, b in zip(data, keystream(key, len(data))))
+    return "ENC[PKCS7," + base64.b64encode(body + mac).decode() + "]"
+
+
+def decrypt_text(key, ciphertext):
+    """Plaintext, or None when the keys do not fit / the value is corrupt."""
+    compact = "".join(str(ciphertext).split())
+    if not (compact.startswith("ENC[PKCS7,") and compact.endswith("]")):
+        return None
+    try:
+        blob = base64.b64decode(compact[len("ENC[PKCS7,"):-1], validate=True)
+    except Exception:
+        return None
+    if len(blob) < 4:
+        return None
+    body, mac = blob[:-4], blob[-4:]
+    plain = bytes(a ^ b for a, b in zip(body, keystream(key, len(body))))
+    if hashlib.sha256(key + plain).digest()[:4] != mac:
+        return None
+    return plain.decode("utf-8", "replace")
+
+
 def main():
     argv = sys.argv[1:]
     if not argv or argv[0] not in ("encrypt", "decrypt"):
